@@ -931,7 +931,9 @@ class Errors:
             for unused in unused_ignored_codes:
                 narrower = set(used_ignored_codes) & codes.sub_code_map[unused]
                 if narrower:
-                    message += f", use narrower [{', '.join(narrower)}] instead of [{unused}] code"
+                    message += (
+                        f", use narrower [{', '.join(sorted(narrower))}] instead of [{unused}] code"
+                    )
             # Don't use report() since add_error_info will ignore the error!
             self.report_simple_error(file, line, message, code=codes.UNUSED_IGNORE)
 
